@@ -473,6 +473,12 @@ func serverForwardResponses(
 				return fmt.Errorf("failed to flush HTTP response: %w", err)
 			}
 
+			// If the response is not final (1xx informational), the final response is still to come,
+			// even when the request or the interim response carries a close indication.
+			if resp.StatusCode < http.StatusOK {
+				continue
+			}
+
 			// Stop forwarding if either the client or server indicates that the connection should be closed.
 			//
 			// RFC 9112 section 9.6 says:
@@ -484,10 +490,8 @@ func serverForwardResponses(
 				return errPayloadAfterFinalResponse
 			}
 
-			// If the response is final (not 1xx informational), we are done.
-			if resp.StatusCode >= http.StatusOK {
-				break
-			}
+			// The response is final, we are done with this request.
+			break
 		}
 	}
 }
